@@ -72,11 +72,11 @@ class Model:
             self.kids[self.par[c]].remove(c)
             self.par[c] = None
         elif op[0] == "declare":
-            _, x, k, u = op
+            _, x, k, u = op[:4]
             for d in self.sub(x):
                 self.ns[d][k] = u
         elif op[0] == "remove":
-            _, x, k = op
+            _, x, k = op[:3]
             for d in self.sub(x):
                 self.ns[d].pop(k, None)
 
@@ -96,9 +96,15 @@ def real_apply(nodes, op):
                 c = nodes[op[1]]
                 c.parent.remove_child(c)
             elif op[0] == "declare":
-                nodes[op[1]].add_namespace(op[2], op[3])
+                if len(op) > 4:     # the public optional parameter, given the value the method computes for itself
+                    nodes[op[1]].add_namespace(op[2], op[3], nsmap_id=id(nodes[op[1]].nsmap))
+                else:
+                    nodes[op[1]].add_namespace(op[2], op[3])
             elif op[0] == "remove":
-                nodes[op[1]].remove_namespace(op[2])
+                if len(op) > 3:
+                    nodes[op[1]].remove_namespace(op[2], nsmap_id=id(nodes[op[1]].nsmap))
+                else:
+                    nodes[op[1]].remove_namespace(op[2])
     except CaseTimeout:
         return "Timeout"
     except Exception as e:  # noqa
@@ -296,13 +302,13 @@ class NsMachine(RuleBasedStateMachine):
         if att:
             self.step(("detach", data.draw(st.sampled_from(att))))
 
-    @rule(x=st.integers(0, 9), k=st.sampled_from(["p", "q", "r", "xml", "eml"]), u=st.sampled_from(["U1", "U2", "U3"]))
+    @rule(x=st.integers(0, 59), k=st.sampled_from(["p", "q", "r", "xml", "eml"]), u=st.sampled_from(["U1", "U2", "U3"]))
     def declare(self, x, k, u):
-        self.step(("declare", x % self.n, k, u))
+        self.step(("declare", x % self.n, k, u) + (("id",) if (x // 10) % 3 == 0 else ()))
 
-    @rule(x=st.integers(0, 9), k=st.sampled_from(["p", "q", "r", "xml", "eml"]))
+    @rule(x=st.integers(0, 59), k=st.sampled_from(["p", "q", "r", "xml", "eml"]))
     def remove(self, x, k):
-        self.step(("remove", x % self.n, k))
+        self.step(("remove", x % self.n, k) + (("id",) if (x // 10) % 3 == 0 else ()))
 
     @rule(x=st.integers(0, 9), which=st.integers(0, 2))
     def bulk(self, x, which):
@@ -368,7 +374,7 @@ def attach_case(draw):
     ops = []
     for g in range(2, n):
         for _ in range(pre.int(1, 2)):
-            ops.append(("declare", g, pre.pick(PFX), pre.pick(["U1", "U2", "U3"])))
+            ops.append(("declare", g, pre.pick(PFX), pre.pick(["U1", "U2", "U3"])) + (("id",) if pre.chance(3) else ()))
     for g in range(2, 2 + k):
         ops.append(("attach", 1, g))
     for g in range(2 + k, n):
@@ -382,7 +388,7 @@ def attach_case(draw):
             ops[a_], ops[b_] = ops[b_], ops[a_]
     start, step = pre.int(0, 4), pre.pick([1, 2, 3, 4])
     for pf in [PFX[(start + j * step) % 5] for j in range(pre.int(2, 4))]:      # 2-4 distinct prefixes
-        ops.append(("declare", 0, pf, pre.pick(["U1", "U2", "U3"])))
+        ops.append(("declare", 0, pf, pre.pick(["U1", "U2", "U3"])) + (("id",) if pre.chance(3) else ()))
     ops.append(("attach", 0, 1))
     if pre.bool():
         ops.append(("declare", pre.int(0, n - 1), pre.pick(PFX), "U4"))
